@@ -128,6 +128,32 @@ func genRTx(c *kernel.RunCtx, extended bool, heavy *int) *models.RTx {
 	if nin == 0 && nout == 0 && t.Lock == 0xEF000000 {
 		t.Lock = 0xEF000001 // the one inherently ambiguous shape is excluded by the property
 	}
+	for _, n := range []int{nin, nout} {
+		switch {
+		case n == 0:
+			c.Count("probe.count_0", 1)
+		case n == 252 || n == 253:
+			c.Count("probe.count_252_253", 1)
+		case n >= 65535:
+			c.Count("probe.count_65535_65536", 1)
+		}
+	}
+	for _, in := range t.Ins {
+		if l := len(in.Script); l == 252 || l == 253 {
+			c.Count("probe.script_len_252_253", 1)
+		} else if l >= 65535 {
+			c.Count("probe.script_len_65535_65536", 1)
+		}
+	}
+	if extended {
+		c.Count("probe.extended_format", 1)
+		for _, in := range t.Ins {
+			if len(in.PrevScript) == 0 {
+				c.Count("probe.extended_empty_prev_script", 1)
+				break
+			}
+		}
+	}
 	return t
 }
 
@@ -405,6 +431,74 @@ func (w *c01World) Run(c *kernel.RunCtx) {
 	w.sliceAPIs(c, data, txs, ends, extended, container, variant)
 	w.apiBuilt(c, txs[0], extended)
 	w.fieldDecoders(c, txs[0], extended)
+	if !c.Failed() && len(data) < 4000 {
+		w.wild(c, data)
+	}
+}
+
+// wild: arbitrary edits of a valid stream. Whatever comes out, the library and the reference parser
+// must agree on acceptance, on where the first transaction ends, on every field, and an accepted
+// minimally-encoded transaction must re-serialise (in its arrival format) to the bytes consumed.
+func (w *c01World) wild(c *kernel.RunCtx, data []byte) {
+	c.Begin("wild")
+	b := append([]byte(nil), data...)
+	for k := 1 + c.Choose(3); k > 0 && len(b) > 0; k-- {
+		off := c.Choose(len(b))
+		switch c.Pick(3, 2, 2, 2, 1) {
+		case 0:
+			b[off] ^= 1 << uint(c.Choose(8))
+		case 1:
+			b = append(b[:off:off], b[off+1:]...)
+		case 2:
+			b = append(b[:off:off], append([]byte{byte(c.Choose(256))}, b[off:]...)...)
+		case 3:
+			n := 1 + c.Choose(8)
+			if off+n > len(b) {
+				n = len(b) - off
+			}
+			b = append(b[:off+n:off+n], append(append([]byte(nil), b[off:off+n]...), b[off+n:]...)...)
+		default:
+			b = b[:off]
+		}
+	}
+	plan := kernel.DrawPlan(c.Tape)
+	c.End()
+	ref, rused, rext, rmin, rerr := models.Decode(b)
+	st := kernel.NewStream(b, plan)
+	tx := &bt.Tx{}
+	var n int64
+	var err error
+	c.Exec()
+	if p := catch(func() { n, err = tx.ReadFrom(st) }); p != "" {
+		c.Fail("panic", "Tx.ReadFrom", "Tx.ReadFrom panicked on an edited stream %x: %s", b, p)
+		return
+	}
+	c.Count("probe.wild_streams", 1)
+	if (err == nil) != (rerr == nil) {
+		c.Fail("acceptance", "Tx.ReadFrom", "edited stream %s: library accepted=%v (err %v), reference parser accepted=%v", hx(b), err == nil, err, rerr == nil)
+		return
+	}
+	if err != nil {
+		return
+	}
+	c.Count("probe.wild_accepted", 1)
+	if int(n) != rused || st.Supplied != rused {
+		c.Fail("consumed", "Tx.ReadFrom", "edited stream %s: library consumed %d (reader advanced %d), the transaction ends at %d", hx(b), n, st.Supplied, rused)
+		return
+	}
+	if d := cmpTx(tx, ref, rext); d != "" {
+		c.Fail("fields", "Tx.ReadFrom", "edited stream %s: %s", hx(b), d)
+		return
+	}
+	if rmin {
+		got := tx.Bytes()
+		if rext {
+			got = tx.ExtendedBytes()
+		}
+		if !sameBytes(got, b[:rused]) {
+			c.Fail("reserialise", "Tx.ReadFrom", "edited stream %s is accepted with minimal prefixes but re-serialises differently: %s", hx(b), firstDiff(got, b[:rused]))
+		}
+	}
 }
 
 func refParseAll(b []byte, counted bool, n int) ([]*models.RTx, []int, bool) {
